@@ -223,6 +223,8 @@ def hygiene():
     inside a Section."""
     bad = []
     for root, _, files in os.walk(COQ):
+        if os.path.relpath(root, COQ).split(os.sep)[0] == "scratch":
+            continue      # not part of the project (never compiled by the Makefile, git-ignored)
         for f in files:
             if not f.endswith(".v"):
                 continue
